@@ -383,6 +383,55 @@ func (x *lexExec) block(fr *lexFrame, b, from *ssa.BasicBlock, env map[ssa.Value
 				x.block(fr, b, nil, e, a.st, i+1)
 			}
 			return
+		case *ssa.Lookup:
+			// `row, ok := table[r]` on a read-only package-level table keyed by runes: ok splits the class of r0
+			g := globalOfLoad(ins.X)
+			if g == nil || !ins.CommaOk {
+				break
+			}
+			tab := roTable(g)
+			if tab == nil || !tab.isMap {
+				break
+			}
+			var keys rset
+			okKeys := true
+			for k := range tab.vals {
+				var v int64
+				if _, err := fmt.Sscan(k, &v); err != nil {
+					okKeys = false
+				}
+				keys = append(keys, rint{v, v})
+			}
+			if !okKeys {
+				break
+			}
+			keys = rsNorm(keys)
+			switch a := x.val(&fr2, ins.Index); a.kind {
+			case aInt:
+				env[ins] = aval{kind: aBool, b: len(rsInter(keys, rset{{a.i, a.i}})) > 0}
+			case aR0:
+				in1, out1 := rsInter(st.cls, keys), rsMinus(st.cls, keys)
+				if len(in1) > 0 && len(out1) > 0 {
+					for _, alt := range []struct {
+						cls rset
+						ok  bool
+					}{{in1, true}, {out1, false}} {
+						e := cloneEnv(env)
+						e[ins] = aval{kind: aBool, b: alt.ok}
+						s2 := st
+						s2.cls = alt.cls
+						x.block(fr, b, nil, e, s2, i+1)
+					}
+					return
+				}
+				env[ins] = aval{kind: aBool, b: len(in1) > 0}
+			}
+		case *ssa.Extract:
+			if lk, ok := ins.Tuple.(*ssa.Lookup); ok && ins.Index == 1 {
+				if a, has := env[lk]; has {
+					env[ins] = a
+				}
+			}
 		case *ssa.UnOp:
 			if ins.Op == token.NOT {
 				if a := x.val(&fr2, ins.X); a.kind == aBool {
